@@ -1,4 +1,5 @@
 import Ruint.Model.Mul
+import Ruint.Gen.WordsUint
 /-! Driver for C02: model = `Ruint.Mul.*` on limb lists, spec = ℕ arithmetic. -/
 open Ruint Ruint.Mul
 
@@ -44,11 +45,11 @@ def handle (args : List String) (_impl : String) : String × String :=
     let x := parseHex as; let y := parseHex bs'
     let m := 2 ^ bits
     match op with
-    | "omul" => (outF (overflowingMul bits a b), toHex ((x * y) % m) ++ " " ++ boolStr (decide (m ≤ x * y)))
-    | "cmul" => (outO (checkedMul bits a b), sOpt (decide (x * y < m)) (x * y))
-    | "smul" => (out (saturatingMul bits a b), toHex (min (x * y) (m - 1)))
+    | "omul" => (outF (Ruint.Gen.uint_overflowing_mul bits (nlimbs bits) a b), toHex ((x * y) % m) ++ " " ++ boolStr (decide (m ≤ x * y)))
+    | "cmul" => (outO (Ruint.Gen.uint_checked_mul bits (nlimbs bits) a b), sOpt (decide (x * y < m)) (x * y))
+    | "smul" => (out (Ruint.Gen.uint_saturating_mul bits (nlimbs bits) a b), toHex (min (x * y) (m - 1)))
     | "wmul" | "mul0" | "mul1" | "mul2" | "mul3" | "mul4" | "mul5" =>
-        (out (wrappingMul bits a b), toHex ((x * y) % m))
+        (out (Ruint.Gen.uint_wrapping_mul bits (nlimbs bits) a b), toHex ((x * y) % m))
     | _ => ("bad-op", "bad-op")
   | [op, bs, as] =>
     let bits := parseDec bs
